@@ -1,0 +1,17 @@
+//go:build verif
+
+package antispoof
+
+import "github.com/cilium/ebpf"
+
+// VerifInjectMaps installs the eBPF map handles that Start() would take from the loaded
+// collection (subscriber_bindings, antispoof_config, antispoof_stats, allowed_ranges_v4), so that
+// the verification harness can let the unmodified manager write into real kernel maps without
+// attaching the TC program to an interface. Injection point only: no behaviour (in particular the
+// initial configuration write of Start() is not repeated here).
+func (m *Manager) VerifInjectMaps(bindings, config, stats, ranges *ebpf.Map) {
+	m.bindings, m.config, m.stats, m.ranges = bindings, config, stats, ranges
+}
+
+// VerifMode returns the manager's current mode field.
+func (m *Manager) VerifMode() Mode { return m.mode }
